@@ -95,7 +95,7 @@ class H:
                  bounds='', stubs=(), assumptions=(), out_of_claim='', samples=(), native=True, sanitize=True,
                  object_bits=None, backends=('cadical',), native_srcs=None, native_extra=(), tiers=('quick', 'thorough'),
                  include_src=(), irc_extra_cc=(), no_checks=False, native_cflags=(), witness_unwind=None, tv=True,
-                 native_cc_defs=(), slice_formula=False, tracked=(), allow_undef=(), native_lib=(), unwind_is_violation=False):
+                 native_cc_defs=(), slice_formula=False, tracked=(), allow_undef=(), native_lib=(), unwind_is_violation=False, shadow_scope=False):
         self.name = name; self.engine = engine; self.harness = harness
         self.repo_srcs = list(repo_srcs); self.wrapper = wrapper; self.extra = list(extra); self.models = list(models)
         self.entry = entry
@@ -120,6 +120,7 @@ class H:
         self.slice_formula = slice_formula
         self.tracked = list(tracked); self.allow_undef = list(allow_undef)
         self.unwind_is_violation = unwind_is_violation   # a loop running past the unwind bound is itself the defect (replayed under ASan)
+        self.shadow_scope = shadow_scope   # E1: use per-run copies of include/express/*.h in which Scope_.u is a struct (CBMC simplifier bug on unions)
         self.native_lib = list(native_lib)   # repo source dirs compiled once per run into a static archive for native builds
 
     def tier_val(self, v, tier):
@@ -143,10 +144,35 @@ def vpath(p):
 def rpath(p):
     return p if os.path.isabs(p) else os.path.join(REPO, p)
 
+def shadow_express_headers(wd):
+    """Per-run copy of /repo/include/express with ONE mechanical change: the anonymous union `u` of struct Scope_ becomes a
+    struct.  CBMC 6.11's expression simplifier returns a wrong value for `p->u.<non-first member>->field` (reduced
+    reproducer in DESIGN.md); with separate storage per member the real code is unchanged for every use that reads the
+    member it wrote (the library never puns through Scope_.u).  The native replay build uses the real headers."""
+    d = os.path.join(wd, 'shadow'); e = os.path.join(d, 'express')
+    if os.path.exists(e):
+        return d
+    os.makedirs(e, exist_ok=True)
+    src = os.path.join(REPO, 'include', 'express')
+    for f in os.listdir(src):
+        if f.endswith('.h'):
+            shutil.copy(os.path.join(src, f), os.path.join(e, f))
+    p = os.path.join(e, 'scope.h'); s = open(p).read()
+    m = re.search(r'(struct Scope_ \{.*?)\bunion(\s*\{.*?\}\s*u;)', s, flags=re.S)
+    if not m:
+        raise Fault('shadow headers: struct Scope_ union not found in scope.h')
+    s = s[:m.start()] + m.group(1) + 'struct /* was: union (verif shadow header) */' + m.group(2) + s[m.end():]
+    open(p, 'w').write(s)
+    return d
+
 def build_goto_c(h, tier, wd, extra_defs, tag):
     """E1: goto-cc on real C units + harness."""
     std = c_std()
-    flags = [std, '-DNDEBUG', '-DVERIF_CBMC=1', '-w', '-I' + os.path.join(LIB, 'cshadow')] + repo_includes() + ['-I' + REPO, '-I' + LIB, '-I' + os.path.dirname(vpath(h.harness))] + h.cflags
+    sh = []
+    if h.shadow_scope:
+        d = shadow_express_headers(wd)
+        sh = ['-I' + d, '-I' + os.path.join(d, 'express')]
+    flags = sh + [std, '-DNDEBUG', '-DVERIF_CBMC=1', '-w', '-I' + os.path.join(LIB, 'cshadow')] + repo_includes() + ['-I' + REPO, '-I' + LIB, '-I' + os.path.dirname(vpath(h.harness))] + h.cflags
     defs = defflags(dict(h.tier_defs(tier), **extra_defs))
     objs = []
     for i, src in enumerate(h.repo_srcs):
